@@ -185,6 +185,47 @@ class MPQueue:
         pass
 
 
+class MPSimpleQueue:
+    """multiprocessing.SimpleQueue shim: a pipe without a feeder thread.  put() pickles and writes synchronously: it
+    completes when the data fits into the pipe buffer (64 KiB); a bigger write completes only while a reader drains it."""
+    CAP = 65536
+
+    def __init__(self, sched):
+        self.sched = sched
+        MPQueue._n += 1
+        self.name = 'mpsq%d' % MPQueue._n
+        self.items = collections.deque()
+        self.bytes = 0
+        self.getters = 0
+
+    def put(self, obj):
+        data = pickle.dumps(obj)
+        self.sched.block(lambda: self.bytes + len(data) <= self.CAP or (self.bytes == 0 and self.getters > 0))
+        self.items.append(data)
+        self.bytes += len(data)
+        self.sched.block()
+
+    def get(self):
+        self.getters += 1
+        try:
+            self.sched.block(lambda: len(self.items) > 0)
+        finally:
+            self.getters -= 1
+        data = self.items.popleft()
+        self.bytes -= len(data)
+        return pickle.loads(data)
+
+    def empty(self):
+        return not self.items
+
+    def close(self):
+        pass
+
+
+class HarnessUnsupported(Exception):
+    """The code under test asked the shims for something they do not model (reported as a harness error)."""
+
+
 class _Runner:
     def __init__(self, sched, kind, target=None, args=(), kwargs=None, **_):
         self.sched = sched
@@ -225,6 +266,18 @@ class ShimMP:
     def Process(self, *a, **kw):
         return _Runner(self.sched, 'worker', **kw)
 
+    def SimpleQueue(self, *a, **kw):
+        return MPSimpleQueue(self.sched)
+
+    def get_context(self, *a, **kw):
+        return self
+
+    def cpu_count(self):
+        return 4
+
+    def __getattr__(self, name):
+        raise HarnessUnsupported('multiprocessing.%s is not modelled by the scheduler shim' % name)
+
 
 class ShimThreading:
     def __init__(self, sched):
@@ -232,6 +285,9 @@ class ShimThreading:
 
     def Thread(self, *a, **kw):
         return _Runner(self.sched, 'thread', **kw)
+
+    def __getattr__(self, name):
+        raise HarnessUnsupported('threading.%s is not modelled by the scheduler shim' % name)
 
 
 class ShimQueueModule:
@@ -241,6 +297,12 @@ class ShimQueueModule:
 
     def Queue(self, *a, **kw):
         return ThreadQueue(self.sched)
+
+    def SimpleQueue(self, *a, **kw):
+        return ThreadQueue(self.sched)
+
+    def __getattr__(self, name):
+        raise HarnessUnsupported('queue.%s is not modelled by the scheduler shim' % name)
 
 
 class patched:
